@@ -927,7 +927,7 @@ operator *(const typename TangentBase<_DerivedOther>::Jacobian& J,
            const TangentBase<_DerivedOther>& t)
 {
   return typename TangentBase<_DerivedOther>::Tangent(
-        typename TangentBase<_DerivedOther>::DataType(J*t.coeffs()));
+        typename TangentBase<_DerivedOther>::Tangent::DataType(J*t.coeffs()));
 }
 
 template <typename _Derived, typename _DerivedOther>
